@@ -647,6 +647,46 @@ def _op_refers(f, op, local):
     return False
 
 
+def param_roles(prog, g):
+    """what each parameter of a formatter is used as, recognised from its uses (not from its name):
+    base = the radix whose digit width is `(p - 1).count_ones()`; digits_per_group = a modulus of digit positions;
+    address_unit = what bit positions are divided by; self / fileserver by type"""
+    from rules_sym import deep
+    fam = [g] + [h for h in prog.real_fns() if h.kind == "Closure" and (h.raw.get("root") == g.id)]
+    roles = []
+    for i in range(1, g.arg_count + 1):
+        ty = g.local_ty(i) or ""
+        if i == 1 and "BitVec" in ty:
+            roles.append("self")
+            continue
+        if "FileServer" in ty:
+            roles.append("fileserver")
+            continue
+        me = "P%d" % i
+        nm = g.local_name(i)
+        role = set()
+        for h in fam:
+            tok = me if h is g else ("upvar:%s" % nm)
+            for bi, t in h.calls():
+                if (t.get("callee") or "").endswith("count_ones") and deep(h, t["args"][0], 4) == "(%s Sub 1_usize)" % tok:
+                    role.add("base")
+            for bi, si, st in h.stmts():
+                if st["k"] == "assign" and st["rv"]["k"] == "binop":
+                    if st["rv"]["op"] == "Rem" and deep(h, st["rv"]["r"], 3) == tok:
+                        role.add("digits_per_group")
+                    if st["rv"]["op"] == "Div" and deep(h, st["rv"]["r"], 3) == tok:
+                        role.add("div")
+        if "base" in role:
+            roles.append("base")
+        elif "digits_per_group" in role:
+            roles.append("digits_per_group")
+        elif "div" in role:
+            roles.append("address_unit")
+        else:
+            roles.append("?")
+    return roles
+
+
 def tab_cli_iters(run, pc, usage):
     R = "TAB-cli"
     f = run.anchor(R, "asm::AssemblyOptions::new")
@@ -1036,10 +1076,10 @@ def tab_fmt(run):
         g = prog.fn(t["resolved"])
         pn = spec["param_names"].get(callee)
         if g is not None and pn is not None:
-            got = [g.local_name(i) for i in range(1, g.arg_count + 1)]
+            got = param_roles(prog, g)
             run.check(got == pn, R, "%s|params|%s" % (R, callee), g.loc(),
                       "%s takes (%s)" % (callee, ", ".join(map(str, got))),
-                      "%s takes (%s), the dispatch table assumes (%s)" % (callee, ", ".join(map(str, got)), ", ".join(pn)))
+                      "%s uses its parameters as (%s), the dispatch table assumes (%s): a radix and a group width (both usize) would be silently exchanged" % (callee, ", ".join(map(str, got)), ", ".join(pn)))
         # the result of the formatter is what is returned (text.bytes().collect() or directly)
         dl = t["dest"]["l"]
         if dl != 0:
